@@ -270,20 +270,18 @@ def precise_diff(
         days_in_last_month = DAYS_PER_MONTHS[leap][month]
         days_in_month = DAYS_PER_MONTHS[int(is_leap(d2.year))][d2.month]
 
-        if d_diff < days_in_month - days_in_last_month:
-            # We don't have a full month, we calculate days
-            if days_in_last_month < d1.day:
-                d_diff += d1.day
-            else:
-                d_diff += days_in_last_month
-        elif d_diff == days_in_month - days_in_last_month:
-            # We have exactly a full month
+        if d1.day > days_in_month and d_diff == days_in_month - d1.day:
+            # The start day does not exist in the end month
+            # and the end is the last day it is clamped to:
+            # we have exactly a full month
             # We remove the days difference
             # and add one to the months difference
             d_diff = 0
             m_diff += 1
+        elif days_in_last_month < d1.day:
+            # We don't have a full month, we calculate days
+            d_diff += d1.day
         else:
-            # We have a full month
             d_diff += days_in_last_month
 
         m_diff -= 1
